@@ -16,6 +16,7 @@ import tempfile
 from fractions import Fraction
 
 from ..core import frac
+from . import _c09cols as _cols
 
 LEVEL = "proof"
 RULE = ("op cov: synthetic coordinate-sorted BAM (1-3 contigs incl. names whose sort order differs from header order, "
@@ -679,6 +680,7 @@ def corpus():
     c += [{"op": "chunks", "tag": "corpus-chunks", "in": {"lines": l, "size": s}} for l, s in (
         ([], 3), (["#a\n"], 1), (["a\n", "b\n", "c\n"], 3), (["a\n", "b\n", "c\n", "d\n"], 3),
         (["#x\n", "a\n", "#y\n", "b\n", "#z\n"], 1), (["a\n", "b\n", "#tail\n"], 2), (["a\n", "b"], 5))]
+    c += _cols.corpus()
     return c
 
 
@@ -718,6 +720,8 @@ def gen_cases(rng, tier):
     if tier != "search":
         for nl in ({"quick": [5001], "thorough": [4999, 5000, 5001, 10000, 10001]}[tier]):
             cases.append(_chunk_case(rng, n=nl, size=5000, tag="chunks-default-size"))
+    # the text side of bedcov (op covcols, harness/props/_c09cols.py); drawn last
+    cases += _cols.gen_cases(rng, tier)
     return cases
 
 
@@ -881,6 +885,8 @@ def _api(coverage, bed, bam, algo, q, procs, fasta, style):
 
 
 def run_impl(case):
+    if case["op"] == "covcols":
+        return _cols.run_impl(case)
     from cnvlib import coverage, parallel
     i = case["in"]
     if case["op"] == "covsched":
@@ -951,6 +957,8 @@ def run_impl(case):
 
 
 def to_line(case, impl):
+    if case["op"] == "covcols":
+        return _cols.to_line(case, impl)
     i = case["in"]
     if case["op"] == "chunks":
         line = {"op": "chunks", "in": {"lines": i["lines"], "size": i["size"]}}
@@ -976,6 +984,8 @@ def _close(a, b):
 
 
 def judge(case, impl, resp):
+    if case["op"] == "covcols":
+        return _cols.judge(case, impl, resp)
     if isinstance(impl, dict) and "__error__" in impl:
         return ["raises_" + impl["__error__"]], [], None
     if "error" in resp:
@@ -1029,6 +1039,8 @@ def judge(case, impl, resp):
 
 
 def nontrivial(case, impl, resp):
+    if case["op"] == "covcols":
+        return _cols.nontrivial(case, impl, resp)
     if isinstance(impl, dict):
         return False
     if case["op"] == "chunks":
@@ -1039,6 +1051,9 @@ def nontrivial(case, impl, resp):
 
 
 def shrink(case):
+    if case["op"] == "covcols":
+        yield from _cols.shrink(case)
+        return
     i = case["in"]
     if case["op"] == "chunks":
         ls = i["lines"]
